@@ -36,29 +36,29 @@ CONSTANTS MaxLeaves, MaxOps, MaxStack,
           EmitMin,                      \* emit only trees with at least this many productions
           Bug                           \* "" or the name of a seeded defect of the algorithm model (spec mutants)
 
-VARIABLES stk, fin
-vars == <<stk, fin>>
+VARIABLES stk, fin, jd
+vars == <<stk, fin, jd>>
 
 \* ================================================================== part 1: the algorithm
 XAt(a, idx) == a.v[Flat(idx, a.sh) + 1]
 XScalar(x) == [sh |-> <<>>, v |-> <<x>>]
-XMap(a, F(_)) == [sh |-> a.sh, v |-> [k \in 1..Len(a.v) |-> F(a.v[k])]]
+XMap(a, F(_)) == [sh |-> a.sh, v |-> TLCEval([k \in 1..Len(a.v) |-> F(a.v[k])])]
 Without(s, i) == SubSeq(s, 1, i - 1) \o SubSeq(s, i + 1, Len(s))
 Without2(s, i, j) == SubSeq(s, 1, i - 1) \o SubSeq(s, i + 1, j - 1) \o SubSeq(s, j + 1, Len(s))
 InsertAt(s, i, x) == SubSeq(s, 1, i - 1) \o <<x>> \o SubSeq(s, i, Len(s))
 \* numpy.take(a, index, axis)   (axis 0-based)
-XGet(a, axis, index) == MkArr(Without(a.sh, axis + 1), LAMBDA idx : XAt(a, InsertAt(idx, axis + 1, index)))
+XGet(a, axis, index) == XMk(Without(a.sh, axis + 1), LAMBDA idx : XAt(a, InsertAt(idx, axis + 1, index)))
 \* numpy.trace(a, axis1=i-1, axis2=j-1)   (i < j, 1-based here): both axes removed
-XTrace(a, i, j) == MkArr(Without2(a.sh, i, j),
-                         LAMBDA idx : FoldSeq(T2Add, T2Zero, [m \in 1..a.sh[i] |-> XAt(a, InsertAt(InsertAt(idx, i, m - 1), j, m - 1))], 1))
+XTrace(a, i, j) == XMk(Without2(a.sh, i, j),
+                         LAMBDA idx : SumTo(LAMBDA m : XAt(a, InsertAt(InsertAt(idx, i, m - 1), j, m - 1)), a.sh[i]))
 \* numpy.transpose(a, axes): result axis p is operand axis axes[p]  (0-based)
-XTranspose(a, axes) == MkArr([p \in 1..Len(axes) |-> a.sh[axes[p] + 1]],
+XTranspose(a, axes) == XMk([p \in 1..Len(axes) |-> a.sh[axes[p] + 1]],
                              LAMBDA idx : XAt(a, [q \in 1..Len(axes) |-> idx[CHOOSE p \in 1..Len(axes) : axes[p] + 1 = q]]))
 \* _FunctionArrayOps.multiply: append_axes + multiply = outer product, axes of the left operand first
-XOuter(a, b) == MkArr(a.sh \o b.sh, LAMBDA idx : T2Mul(XAt(a, Pre(idx, Len(a.sh))), XAt(b, Post(idx, Len(a.sh)))))
+XOuter(a, b) == XMk(a.sh \o b.sh, LAMBDA idx : T2Mul(XAt(a, Pre(idx, Len(a.sh))), XAt(b, Post(idx, Len(a.sh)))))
 \* _FunctionArrayOps.call: the argument's axes followed by the generated axes
-XCall(f, a) == MkArr(a.sh \o FuncTab[f].gen, LAMBDA idx : ApplyF(f, XAt(a, Pre(idx, Len(a.sh))), Post(idx, Len(a.sh))))
-XVar(nm) == MkArr(VarTab[nm].sh, LAMBDA idx : VarAt(nm, idx))
+XCall(f, a) == XMk(a.sh \o FuncTab[f].gen, LAMBDA idx : ApplyF(f, XAt(a, Pre(idx, Len(a.sh))), Post(idx, Len(a.sh))))
+XVar(nm) == XMk(VarTab[nm].sh, LAMBDA idx : VarAt(nm, idx))
 PosIn(s, x) == CHOOSE p \in 1..Len(s) : s[p] = x /\ \A q \in 1..(p - 1) : s[q] # x     \* str.index
 SeqSet(s) == {s[p] : p \in 1..Len(s)}
 
@@ -99,6 +99,10 @@ PVerify(ix, sm) == \A p \in 1..Len(ix) : ix[p] \notin sm
 RECURSIVE PFirstFail(_, _)
 PFirstFail(rs, p) == IF ~rs[p].ok THEN PFail(rs[p].why) ELSE PFirstFail(rs, p + 1)
 
+RECURSIVE OuterTo(_, _)      \* multiply(*items): outer products from the left
+OuterTo(rs, n) == IF n = 1 THEN rs[1].a ELSE XOuter(OuterTo(rs, n - 1), rs[n].a)
+RECURSIVE IxTo(_, _)         \* ''.join(indices)
+IxTo(rs, n) == IF n = 0 THEN <<>> ELSE IxTo(rs, n - 1) \o rs[n].ix
 RECURSIVE P(_)
 P(e) ==
   LET R(p) == P(e.kids[p]) IN
@@ -137,31 +141,68 @@ P(e) ==
                  ELSE POk(XMap(nu.a, LAMBDA y : T2Div(y, de.a.v[1])), nu.ix, nu.sm \cup de.sm)
     [] e.op = "term" ->                                           \* parse_term
          LET n == Len(e.kids)
-             rs == [p \in 1..n |-> R(p)]
+             rs == TLCEval([p \in 1..n |-> R(p)])
          IN IF \E p \in 2..n : IsNumItem(e.kids[p]) THEN PFail("number-position")   \* parse_item(allow_number=False)
             ELSE IF \E p \in 1..n : ~rs[p].ok THEN PFirstFail(rs, 1)
-            ELSE PTrace(FoldSeq(XOuter, rs[1].a, [p \in 1..(n - 1) |-> rs[p + 1].a], 1),
-                        FoldSeq(LAMBDA s, r : s \o r.ix, <<>>, rs, 1),
+            ELSE PTrace(OuterTo(rs, n), IxTo(rs, n),
                         [p \in 1..n |-> rs[p].sm])
     [] e.op = "sum" ->                                            \* parse_expression
          LET n == Len(e.kids)
-             rs == [p \in 1..n |-> R(p)]
+             rs == TLCEval([p \in 1..n |-> R(p)])
          IN IF \E p \in 1..n : e.sg[p] \in {"+-", "--"} THEN PFail("misplaced-minus")   \* parse_item on "-b"
             ELSE IF \E p \in 1..n : ~rs[p].ok THEN PFirstFail(rs, 1)
             ELSE LET ix == rs[1].ix
                      sh == rs[1].a.sh
                  IN IF \E p \in 2..n : SeqSet(rs[p].ix) # SeqSet(ix) THEN PFail("term-indices")
-                    ELSE LET al == [p \in 1..n |->
+                    ELSE LET al == TLCEval([p \in 1..n |->
                                       IF rs[p].ix = ix THEN rs[p].a
                                       ELSE IF Bug = "sum-inverse-perm"
                                            THEN XTranspose(rs[p].a, [q \in 1..Len(ix) |-> PosIn(ix, rs[p].ix[q]) - 1])
-                                           ELSE XTranspose(rs[p].a, [q \in 1..Len(ix) |-> PosIn(rs[p].ix, ix[q]) - 1])]
+                                           ELSE XTranspose(rs[p].a, [q \in 1..Len(ix) |-> PosIn(rs[p].ix, ix[q]) - 1])])
                          IN IF \E p \in 2..n : al[p].sh # sh THEN PFail("term-length")
-                            ELSE POk([sh |-> sh, v |-> [k \in 1..Len(al[1].v) |->
-                                          FoldSeq(T2Add, T2Zero, [p \in 1..n |-> IF e.sg[p] = "-" THEN T2Neg(al[p].v[k]) ELSE al[p].v[k]], 1)]],
+                            ELSE POk([sh |-> sh, v |-> TLCEval([k \in 1..Len(al[1].v) |->
+                                          SumTo(LAMBDA p : IF e.sg[p] = "-" THEN T2Neg(al[p].v[k]) ELSE al[p].v[k], n)])],
                                      ix,
                                      IF Bug = "sum-nosummed" THEN rs[1].sm ELSE UNION {rs[p].sm : p \in 1..n})
 
+\* ================================================================== the judgement of one tree
+\* Every complete state (one tree on the stack) is judged once, when it is produced: the documented
+\* reading (n, ExprLang) against the algorithm (r, part 1).  The judgement is kept in the history
+\* variable jd (a function of stk and fin), the invariants read it.
+Emit(x) == PrintT(<<"VF", ToJson(x)>>)
+ProjArr(a) == [sh |-> a.sh, v |-> [k \in 1..Len(a.v) |-> <<a.v[k][1][1], a.v[k][1][2], a.v[k][2][1], a.v[k][2][2]>>]]
+NoArr == [sh |-> <<>>, v |-> <<>>]
+RECURSIVE Ops(_)
+Ops(e) == {e.op} \cup (IF e.op \in {"call", "var", "num"} THEN {e.nm} ELSE {}) \cup UNION {Ops(e.kids[p]) : p \in 1..Len(e.kids)}
+NoCase == [t |-> <<>>, ok |-> "none", why |-> "", guess |-> <<>>, fr |-> <<>>, arr |-> NoArr, rev |-> NoArr, ops |-> {}, no |-> 0, st |-> 0]
+NoJd == [c |-> FALSE, verdict |-> TRUE, free |-> TRUE, meaning |-> TRUE, case |-> NoCase]
+Judge(ent) ==
+  LET e == ent.e
+      n == Chk(e)
+      r == P(e)
+      valid == n.why = ""
+      fs == FreeSet(n.cnt)
+      fr == FreeSeq(n.cnt)
+      sameix == SeqSet(r.ix) = fs /\ Len(r.ix) = Cardinality(fs)
+      m == ArrOf(n, r.ix)                                \* the reading, axes in the algorithm's order
+      \* the same array with its axes in alphabetical / reverse alphabetical order of the letters
+      sorted == IF r.ix = fr THEN m ELSE XTranspose(m, [q \in 1..Len(fr) |-> PosIn(r.ix, fr[q]) - 1])
+      rev == IF Len(fr) <= 1 THEN sorted ELSE XTranspose(m, [q \in 1..Len(fr) |-> PosIn(r.ix, Reverse(fr)[q]) - 1])
+      usable == valid /\ r.ok /\ sameix
+  IN [c |-> TRUE,
+      verdict |-> valid = r.ok,
+      free |-> (valid /\ r.ok) => /\ sameix
+                                  /\ r.sm = {l \in AllLetters : n.cnt[l] = 2}
+                                  /\ r.a.sh = [p \in 1..Len(r.ix) |-> n.ln[r.ix[p]]],
+      meaning |-> usable => /\ m.sh = r.a.sh
+                            /\ \A k \in 1..Len(m.v) : m.v[k] = r.a.v[k] \/ T2Bad(m.v[k]) \/ T2Bad(r.a.v[k]),
+      case |-> [t |-> Render(e, 0),
+                ok |-> IF ~valid THEN "bad" ELSE IF IntNegPow(n) THEN "skip" ELSE "ok",
+                why |-> n.why, guess |-> fr,
+                fr |-> IF valid THEN fr ELSE <<>>,
+                arr |-> IF usable THEN ProjArr(sorted) ELSE NoArr,
+                rev |-> IF usable THEN ProjArr(rev) ELSE NoArr,
+                ops |-> Ops(e), no |-> ent.no, st |-> 0]]
 \* ================================================================== part 2: the derivation machine
 \* stack entry: tree, syntactic rank (1 item, 2 power, 3 term, 4 fraction, 5 sum), leaves, productions
 Ent(e, r, nl, no) == [e |-> e, r |-> r, nl |-> nl, no |-> no]
@@ -175,14 +216,17 @@ NO == SumField([p \in 1..L |-> stk[p].no], L)
 Push(x) == stk' = Append(stk, x)
 Rep1(x) == stk' = Append(SubSeq(stk, 1, L - 1), x)
 Rep2(x) == stk' = Append(SubSeq(stk, 1, L - 2), x)
+\* every production leaves the finishing record alone and judges the new stack when it is one complete tree
+Built == /\ fin' = fin
+         /\ jd' = IF Len(stk') = 1 /\ stk'[1].no >= EmitMin THEN Judge(stk'[1]) ELSE NoJd
 Open == ~fin.done
 CanLeaf == Open /\ NL < MaxLeaves /\ L < MaxStack
 CanOp == Open /\ NO < MaxOps
 
-ANum == /\ CanLeaf /\ \E t \in NumSet : Push(Ent(NumNd(t), 1, 1, 0)) /\ UNCHANGED fin
+ANum == /\ CanLeaf /\ \E t \in NumSet : Push(Ent(NumNd(t), 1, 1, 0)) /\ Built
 AVar == /\ CanLeaf
         /\ \E nm \in VarSet : \E ix \in [1..Len(VarTab[nm].sh) -> Toks] : Push(Ent(VarNd(nm, ix), 1, 1, 0))
-        /\ UNCHANGED fin
+        /\ Built
 \* rule breakers at the leaves: unknown name, one index too many / too few, a symbol that is no index
 ABadVar == /\ CanLeaf
            /\ \/ /\ "unknown" \in Muts /\ \E ix \in {<<>>, <<"i">>} : Push(Ent(VarNd("q", ix), 1, 1, 0))
@@ -191,45 +235,45 @@ ABadVar == /\ CanLeaf
                        /\ \E ix \in [1..(Len(VarTab[nm].sh) + d) -> (Toks \cap {"i", "j"})] : Push(Ent(VarNd(nm, ix), 1, 1, 0))
               \/ /\ "index-symbol" \in Muts
                  /\ \E nm \in VarSet : Len(VarTab[nm].sh) = 1 /\ \E t \in {"I", "$"} : Push(Ent(VarNd(nm, <<t>>), 1, 1, 0))
-           /\ UNCHANGED fin
+           /\ Built
 AWrap == /\ CanOp /\ L >= 1
          /\ \E w \in Wraps : Rep1(Ent(Nd(w, "", <<>>, <<Top.e>>, <<>>), 1, Top.nl, Top.no + 1))
-         /\ UNCHANGED fin
+         /\ Built
 ACall == /\ CanOp /\ L >= 1
          /\ \E f \in FuncSet : \E ix \in [1..Len(FuncTab[f].gen) -> GToks] :
                 Rep1(Ent(Nd("call", f, ix, <<Top.e>>, <<>>), 1, Top.nl, Top.no + 1))
-         /\ UNCHANGED fin
+         /\ Built
 ABadCall == /\ CanOp /\ L >= 1
             /\ \/ /\ "unknown" \in Muts /\ Rep1(Ent(Nd("call", "nofunc", <<>>, <<Top.e>>, <<>>), 1, Top.nl, Top.no + 1))
                \/ /\ "index-count" \in Muts
                   /\ \E f \in FuncSet : \E d \in {-1, 1} : Len(FuncTab[f].gen) + d >= 0
                         /\ \E ix \in [1..(Len(FuncTab[f].gen) + d) -> (GToks \cap {"i", "j"})] :
                               Rep1(Ent(Nd("call", f, ix, <<Top.e>>, <<>>), 1, Top.nl, Top.no + 1))
-            /\ UNCHANGED fin
+            /\ Built
 APowInt == /\ CanOp /\ L >= 1 /\ (Top.r = 1 \/ (Top.r = 2 /\ "repeated-power" \in Muts))
            /\ \E x \in IntExps : Rep1(Ent(Nd("pow", "int", <<>>, <<Top.e, NumNd(x)>>, <<>>), 2, Top.nl, Top.no + 1))
-           /\ UNCHANGED fin
+           /\ Built
 APowScoped == /\ CanOp /\ L >= 2 /\ Sec.r = 1
               /\ Rep2(Ent(Nd("pow", "scoped", <<>>, <<Sec.e, Top.e>>, <<>>), 2, Sec.nl + Top.nl, Sec.no + Top.no + 1))
-              /\ UNCHANGED fin
+              /\ Built
 \* juxtaposition: a term is extended on the right
 ATerm == /\ CanOp /\ L >= 2 /\ Sec.r <= 3 /\ Top.r <= 2
          /\ (IsNumItem(Top.e) => "number-position" \in Muts)
          /\ Rep2(Ent(Nd("term", "", <<>>, IF Sec.r = 3 THEN Append(Sec.e.kids, Top.e) ELSE <<Sec.e, Top.e>>, <<>>), 3,
                      Sec.nl + Top.nl, Sec.no + Top.no + (IF Sec.r = 3 THEN 0 ELSE 1)))
-         /\ UNCHANGED fin
+         /\ Built
 AFrac == /\ CanOp /\ L >= 2 /\ Top.r <= 3 /\ (Sec.r <= 3 \/ (Sec.r = 4 /\ "repeated-fraction" \in Muts))
          /\ Rep2(Ent(Nd("frac", "", <<>>, <<Sec.e, Top.e>>, <<>>), 4, Sec.nl + Top.nl, Sec.no + Top.no + 1))
-         /\ UNCHANGED fin
+         /\ Built
 ANeg == /\ CanOp /\ L >= 1 /\ Top.r <= 4
         /\ Rep1(Ent(Nd("sum", "", <<>>, <<Top.e>>, <<"-">>), 5, Top.nl, Top.no + 1))
-        /\ UNCHANGED fin
+        /\ Built
 ASum == /\ CanOp /\ L >= 2 /\ Top.r <= 4
         /\ \E s \in {"+", "-"} \cup (IF "misplaced-minus" \in Muts THEN {"+-"} ELSE {}) :
               Rep2(Ent(Nd("sum", "", <<>>, IF Sec.r = 5 THEN Append(Sec.e.kids, Top.e) ELSE <<Sec.e, Top.e>>,
                           IF Sec.r = 5 THEN Append(Sec.e.sg, s) ELSE <<"+", s>>), 5,
                        Sec.nl + Top.nl, Sec.no + Top.no + (IF Sec.r = 5 THEN 0 ELSE 1)))
-        /\ UNCHANGED fin
+        /\ Built
 
 \* ---- finishing: a rendering style or one token-level corruption of the canonical string
 Brackets == {"(", ")", "[", "]", "{", "}"}
@@ -265,58 +309,36 @@ Corrupt(kind, t, p) ==
     [] kind = "call-space" -> InsertAt(t, p, " ")
     [] kind = "index-space" -> InsertAt(t, p, " ")
     [] kind = "trailing-op" -> t \o <<" ", "+">>
+\* a finished state: the same tree in another rendering style (same verdict and array) or with one
+\* corrupted token (always a violation of the documented syntax)
+Refinish(j, e, f) ==
+  IF f.ck = "" THEN [j EXCEPT !.case.t = RenderTop(e, f.st), !.case.st = f.st]
+  ELSE [j EXCEPT !.case.t = Corrupt(f.ck, Render(e, 0), f.cp), !.case.ok = "bad", !.case.why = f.ck,
+                 !.case.fr = <<>>, !.case.arr = NoArr, !.case.rev = NoArr]
+
 AFinish == /\ Open /\ L = 1
            /\ \/ \E st \in Styles : fin' = [done |-> TRUE, st |-> st, ck |-> "", cp |-> 0]
               \/ \E k \in Cors : \E p \in CorPositions(k, CanonToks) : fin' = [done |-> TRUE, st |-> 0, ck |-> k, cp |-> p]
            /\ UNCHANGED stk
+           /\ jd.c /\ jd' = Refinish(jd, Top.e, fin')
 
-Init == stk = <<>> /\ fin = [done |-> FALSE, st |-> 0, ck |-> "", cp |-> 0]
+Init == stk = <<>> /\ fin = [done |-> FALSE, st |-> 0, ck |-> "", cp |-> 0] /\ jd = NoJd
 Next == ANum \/ AVar \/ ABadVar \/ AWrap \/ ACall \/ ABadCall \/ APowInt \/ APowScoped \/ ATerm \/ AFrac \/ ANeg \/ ASum \/ AFinish
 Spec == Init /\ [][Next]_vars
 
 \* ================================================================== the property
-Complete == L = 1 /\ Top.no >= EmitMin
-Tree == Top.e
-\* judged once per complete state: the documented reading (n) against the algorithm (r)
-Agreement(e) ==
-  LET n == Chk(e)
-      r == P(e)
-  IN [verdict |-> (n.why = "") = r.ok,
-      free |-> (n.why = "" /\ r.ok) => /\ SeqSet(r.ix) = FreeSet(n.cnt) /\ Len(r.ix) = Cardinality(FreeSet(n.cnt))
-                                       /\ r.sm = {l \in AllLetters : n.cnt[l] = 2}
-                                       /\ r.a.sh = [p \in 1..Len(r.ix) |-> n.ln[r.ix[p]]],
-      meaning |-> (n.why = "" /\ r.ok /\ SeqSet(r.ix) = FreeSet(n.cnt) /\ Len(r.ix) = Cardinality(FreeSet(n.cnt))) =>
-                     LET m == ArrOf(n, r.ix) IN
-                     m.sh = r.a.sh /\ \A k \in 1..Len(m.v) : m.v[k] = r.a.v[k] \/ T2Bad(m.v[k]) \/ T2Bad(r.a.v[k])]
-VerdictAgree == Complete => Agreement(Tree).verdict
-FreeAgree == Complete => Agreement(Tree).free
-MeaningAgree == Complete => Agreement(Tree).meaning
-\* rendered strings of trees are bracket balanced, corrupted ones of kind del-bracket are not
+VerdictAgree == jd.verdict       \* the algorithm accepts iff the documented rules hold
+FreeAgree == jd.free             \* free / summed indices and shape are the letters used once / twice
+MeaningAgree == jd.meaning       \* the algorithm's array is the index-notation reading
+\* rendered strings of trees are bracket balanced
 RECURSIVE Depth(_, _, _)
 Depth(t, p, d) == IF p > Len(t) THEN d ELSE IF d < 0 THEN d
                   ELSE Depth(t, p + 1, IF t[p] \in {"(", "[", "{"} THEN d + 1 ELSE IF t[p] \in Closers THEN d - 1 ELSE d)
-RenderBalanced == Complete => Depth(CanonToks, 1, 0) = 0
+RenderBalanced == (jd.c /\ fin.ck = "") => Depth(jd.case.t, 1, 0) = 0
+Unbalanced == (jd.c /\ fin.ck = "del-bracket") => Depth(jd.case.t, 1, 0) # 0
 
 \* ================================================================== emission
-Emit(x) == PrintT(<<"VF", ToJson(x)>>)
-ProjArr(a) == [sh |-> a.sh, v |-> [k \in 1..Len(a.v) |-> <<a.v[k][1][1], a.v[k][1][2], a.v[k][2][1], a.v[k][2][2]>>]]
-NoArr == [sh |-> <<>>, v |-> <<>>]
-RECURSIVE Ops(_)
-Ops(e) == {e.op} \cup (IF e.op \in {"call", "var", "num"} THEN {e.nm} ELSE {}) \cup UNION {Ops(e.kids[p]) : p \in 1..Len(e.kids)}
-Case(e, f) ==
-  LET n == Chk(e)
-      toks == IF f.ck # "" THEN Corrupt(f.ck, CanonToks, f.cp) ELSE RenderTop(e, f.st)
-      valid == n.why = "" /\ f.ck = ""
-      fr == FreeSeq(n.cnt)
-  IN [t |-> toks,
-      ok |-> IF ~valid THEN "bad" ELSE IF IntNegPow(n) THEN "skip" ELSE "ok",
-      why |-> IF f.ck # "" THEN f.ck ELSE n.why,
-      guess |-> fr,
-      fr |-> IF valid THEN fr ELSE <<>>,
-      arr |-> IF valid THEN ProjArr(ArrOf(n, fr)) ELSE NoArr,
-      rev |-> IF valid THEN ProjArr(ArrOf(n, Reverse(fr))) ELSE NoArr,
-      ops |-> Ops(e), no |-> Top.no, st |-> f.st]
-EmitComplete == Complete => Emit(Case(Tree, fin))
+EmitComplete == jd.c => Emit(jd.case)
 \* the namespace itself, once
 EmitTables == (L = 0) => Emit([vars |-> VarTab, funcs |-> FuncTab, nums |-> [t \in DOMAIN NumTab |-> NumTab[t]]])
 =============================================================================
